@@ -238,6 +238,9 @@ func (lam *Lambda) BoundCall(s *Scope, depth int) (result Object) {
 			}
 			break
 		}
+		if _, ok := result.(Transfer); ok {
+			break
+		}
 	}
 	return
 }
